@@ -6,7 +6,7 @@ open Conv
 exception Unsupported
 
 type rtcase = {
-  o : opts; custom_nf : bool; custom_na : bool;
+  o : opts; custom_nf : bool; custom_na : bool; lateopt : bool;
   defs : (n list list * n list * bool) list;       (* raw methods, raw path, nil handler *)
   qs : (string * n list * n list) list;            (* kind, method, path *)
 }
@@ -14,7 +14,7 @@ type rtcase = {
 let parse_case = function
   | L [A "rt"; L os; L ds; L qs] ->
     let strict = ref false and na = ref false and fb = ref false and caching = ref false and cap = ref 1000
-    and icpt = ref [] and nf = ref false and nal = ref false in
+    and icpt = ref [] and nf = ref false and nal = ref false and late = ref false in
     List.iter (function
         | L [A "strict"] -> strict := true
         | L [A "na"] -> na := true
@@ -23,9 +23,10 @@ let parse_case = function
         | L [A "intercept"; p] -> icpt := trim_space (str p)
         | L [A "nf"] -> nf := true
         | L [A "nal"] -> nal := true
+        | L [A "lateopt"] -> late := true       (* Router.WithOptions(<no-op option>) after the registrations *)
         | x -> failwith ("rt: bad option " ^ to_string x)) os;
     { o = { o_strict = !strict; o_na = !na; o_fallback = !fb; o_caching = !caching; o_cap = nat_of_int !cap; o_intercept = !icpt };
-      custom_nf = !nf; custom_na = !nal;
+      custom_nf = !nf; custom_na = !nal; lateopt = !late;
       defs = List.map (function L [L ms; p; nh] -> (List.map str ms, str p, bool nh) | x -> failwith ("rt: bad def " ^ to_string x)) ds;
       qs = List.map (function L [A k; m; p] -> (k, str m, str p) | x -> failwith ("rt: bad query " ^ to_string x)) qs }
   | x -> failwith ("rt: bad case " ^ to_string x)
@@ -48,6 +49,8 @@ let build (c : rtcase) (caching : bool) =
             | _ -> ());
            rt := rt'; regs := A "ok" :: !regs; ridmap := !ridmap @ [i]
          | Panic -> regs := A "panic" :: !regs)) c.defs;
+  if c.lateopt then
+    regs := (match with_options !rt o with Ok _ -> A "lateopt-ok" | Panic -> A "lateopt-panic") :: !regs;
   (!rt, List.rev !regs, !ridmap)
 
 let sort_assoc l = List.sort (fun (a, _) (b, _) -> if str_eqb a b then 0 else if str_leb a b then -1 else 1) l
@@ -295,6 +298,8 @@ let c13_judge cs obs =
   match obs with
   | L [L (A "reg" :: regs); L (A "panics" :: ps)] ->
     if List.exists (fun p -> p = A "t") ps then "bad lookup-panic-after-accepted-registration"
+    else if List.mem (A "lateopt-ok") regs && List.exists (fun r -> r = A "ok") regs then "bad options-accepted-after-routes-exist"
+    else if List.mem (A "lateopt-panic") regs && not (List.exists (fun r -> r = A "ok") regs) then "bad options-rejected-on-an-empty-router"
     else begin
       (* definitions of the rejected classes must not be accepted *)
       let bad = ref "ok" in
